@@ -41,10 +41,13 @@ const size_t HDR = 10, REC = 3;
 enum { E_RAW, E_VEC_EXACT, E_VEC_SLACK };
 const char *ENTRYN[] = {"raw_array", "vector(cap==size)", "vector(cap>size)"};
 const size_t ESIZE[8] = {1, 2, 4, 8, 3, 12, 16, 24};
-const int NSEL = 9;     // 8 selector values + "the cstl_vector_sort() wrapper / DEFAULT"
+const int NSEL = 21;    // the named selectors, "the cstl_vector_sort() wrapper / DEFAULT" (index 8), and out-of-range values: every
+                        // small value next to the named ones (a selector added later is covered as soon as it exists) and far ones
 const int SELV[NSEL] = {CSTL_SORT_ALGORITHM_QUICK, CSTL_SORT_ALGORITHM_QUICK_R, CSTL_SORT_ALGORITHM_QUICK_M,
-                        CSTL_SORT_ALGORITHM_HEAP, 4, 99, -1, 2897234, CSTL_SORT_ALGORITHM_DEFAULT};
-const char *SELN[NSEL] = {"QUICK", "QUICK_R", "QUICK_M", "HEAP", "4", "99", "-1", "2897234", "DEFAULT"};
+                        CSTL_SORT_ALGORITHM_HEAP, 4, 99, -1, 2897234, CSTL_SORT_ALGORITHM_DEFAULT,
+                        5, 6, 7, 8, 9, 10, 12, 16, 255, 256, 2147483647, -2147483647 - 1};
+const char *SELN[NSEL] = {"QUICK", "QUICK_R", "QUICK_M", "HEAP", "4", "99", "-1", "2897234", "DEFAULT",
+                          "5", "6", "7", "8", "9", "10", "12", "16", "255", "256", "INT_MAX", "INT_MIN"};
 const uint32_t KTAB[] = {1, 2, 3, 4, 5, 8, 16, 64, 120, 1000, 30000};
 const int NK = sizeof KTAB / sizeof KTAB[0];
 enum { SH_EXPLICIT, SH_SORTED, SH_REVERSED, SH_CONST, SH_TWO, SH_ORGAN, SH_SAW, SH_RANDOM, NSHAPE };
@@ -613,14 +616,14 @@ void vf_run(const uint8_t *data, size_t len)
     {
         static CntTab ce{"class.entry.raw", "class.entry.vector_exact", "class.entry.vector_slack"};
         static CntTab cs{"class.sel.QUICK", "class.sel.QUICK_R", "class.sel.QUICK_M", "class.sel.HEAP", "class.sel.4",
-                         "class.sel.99", "class.sel.-1", "class.sel.2897234", "class.sel.DEFAULT_wrapper"};
+                         "class.sel.99", "class.sel.-1", "class.sel.2897234", "class.sel.DEFAULT_wrapper", "class.sel.other_out_of_range"};
         static CntTab cn{"class.n.0", "class.n.1", "class.n.2", "class.n.3", "class.n.4-40", "class.n.41-1000",
                          "class.n.1001+"};
         static CntTab cp{"class.pivot.is_min", "class.pivot.is_max", "class.pivot.inner", "class.pivot.all_equal"};
         static CntTab csh{"class.shape.explicit", "class.shape.sorted", "class.shape.reversed", "class.shape.constant",
                           "class.shape.two_valued", "class.shape.organ_pipe", "class.shape.sawtooth", "class.shape.random"};
         ce.hit(entry);
-        cs.hit(seli);
+        cs.hit(seli < 9 ? seli : 9);
         csh.hit(shape);
         cn.hit(n <= 3 ? n : n <= 40 ? 4 : n <= 1000 ? 5 : 6);
         if (es == 1 || es == 2 || es == 4 || es == 8) CNT("class.esize.fast_path"); else CNT("class.esize.memcpy_path");
@@ -672,7 +675,7 @@ void vf_gen(Rng &r, std::vector<uint8_t> &out)
         out.push_back(0x80);
         return;
     }
-    int seli = (int)r.below(NSEL);
+    int seli = r.chance(3, 4) ? (int)r.below(9) : (int)r.below(NSEL);
     out.push_back(r.byte());                 // entry point
     out.push_back(r.chance(1, 2) ? (uint8_t)r.below(8) : r.byte());   // element size: half classic sizes, half anything up to 192 / large
     out.push_back((uint8_t)seli);            // selector
